@@ -99,8 +99,8 @@ NoComp(s) == s.one = <<>> /\ s.any = <<>> /\ s.all = <<>>
 Top(s) ==
   IF s.ref # "" THEN {[Empty EXCEPT !.all = <<s>>], [Empty EXCEPT !.one = <<s>>], [Empty EXCEPT !.any = <<s>>]}                          \* W
   ELSE (IF s.nul /\ ~s.tl /\ s.ts # <<>> THEN {[s EXCEPT !.nul = FALSE, !.tl = TRUE, !.ts = <<s.ts[1], "null">>]} ELSE {})               \* N1
-    \cup (IF ~s.nul /\ s.tl /\ Len(s.ts) = 2 /\ s.ts[2] = "null" /\ s.en = <<>> /\ NoComp(s)
-            THEN {[Empty EXCEPT !.one = <<[s EXCEPT !.tl = FALSE, !.ts = <<s.ts[1]>>], NullS>>]} ELSE {})                                \* N2
+    \cup (IF ~s.nul /\ s.tl /\ Len(s.ts) = 2 /\ "null" \in Range(s.ts) /\ s.ts[1] # s.ts[2] /\ s.en = <<>> /\ NoComp(s)
+            THEN {[Empty EXCEPT !.one = [i \in 1..2 |-> IF s.ts[i] = "null" THEN NullS ELSE [s EXCEPT !.tl = FALSE, !.ts = <<s.ts[i]>>]]]} ELSE {})        \* N2 (members in the order of the type list)
     \cup (IF s.nul /\ s.ts = <<>> /\ s.one # <<>> THEN {[s EXCEPT !.nul = FALSE, !.one = Append(@, NullS)]} ELSE {})                     \* N3
     \cup (IF s.nul /\ s.ts = <<>> /\ s.one = <<>> /\ s.any # <<>> THEN {[s EXCEPT !.nul = FALSE, !.any = Append(@, NullS)]} ELSE {})     \* N3
     \cup (IF s.nul /\ s.ts = <<>> /\ s.one = <<>> /\ s.any = <<>> /\ s.all # <<>>
@@ -129,6 +129,8 @@ AllOf(q) == [Empty EXCEPT !.all = q]
 Inline == [Empty EXCEPT !.props = TRUE]
 BaseTerms ==
   {Nul(T(t)) : t \in {"string", "integer", "number", "boolean", "array"}} \cup {Nul(Obj), Nul([T("string") EXCEPT !.fmt = "date"])}
+  \cup {[Obj EXCEPT !.tl = TRUE, !.ts = <<"null", "object">>], [Empty EXCEPT !.tl = TRUE, !.ts = <<"null", "string">>, !.fmt = "date"], [Empty EXCEPT !.tl = TRUE, !.ts = <<"null", "array">>],
+        [Empty EXCEPT !.tl = TRUE, !.ts = <<"object", "null">>, !.props = TRUE]}            \* 3.1 type lists written with null first / last
   \cup {Ref("M"), Ref("E"), Ref("D")}          \* D: a component model with an inline nested object
   \cup {En(T("string"), <<"a", "b">>), Nul(En(T("string"), <<"a", "b">>)), En(Empty, <<"a", "b", "NULL">>), En(T("string"), <<"a", "b", "NULL">>),
         Nul(En(T("string"), <<"a", "b", "NULL">>)), En(T("integer"), <<"i1", "i2", "NULL">>), En(Empty, <<"NULL">>), Nul(En(T("string"), <<"NULL">>))}
